@@ -1,5 +1,11 @@
 package protocol
 
+import (
+	"net/http"
+
+	"github.com/bolkedebruin/rdpgw/cmd/rdpgw/identity"
+)
+
 // C09 — no data races or interleaved writes under concurrent use.
 // Decided by a lockset analysis over the executor's access logs: the harness runs the logical
 // threads one after the other; every heap access is logged with thread, locks held and spawn
@@ -23,6 +29,41 @@ func VP_C09_ws() {
 		vpThread("A")
 		vpNextTransportFor(trA)
 		g.handleWebsocketProtocol(vpCtx(), nil, tA)
+	}, func() {
+		vpThread("B")
+		vpNextTransportFor(trB)
+		g.handleWebsocketProtocol(vpCtx(), nil, tB)
+	})
+	vpRunTasks()
+	vpThread("setup")
+	vpReach("done")
+	vpAssert(true, "scenario-completed")
+}
+
+//vp:property C09
+//vp:flag lockset
+//vp:bounds one legacy tunnel A (RDG_OUT_DATA request, then RDG_IN_DATA request running the packet loop: full set-up, one DATA packet, then CLOSE_CHANNEL while the backend has sent one chunk and stays open) concurrent with one websocket tunnel B (full set-up, DATA, then the client drops); idle timeout arbitrary
+//vp:assume as VP_C09_ws
+//vp:reach done
+func VP_C09_mixed() {
+	vpThread("setup")
+	vpResetHandlers()
+	g := &Gateway{IdleTimeout: int(int32(vpU32("idle")))}
+	outA, inA, trB := &vpTransport{}, vpScript(5, 1), vpScript(5, 0)
+	inA.yieldOnRead, trB.yieldOnRead = true, true
+	idA, idB := vpUser(), vpUser()
+	tB := &Tunnel{RDGId: "conn-B", User: idB, RemoteAddr: "10.0.0.2:1"}
+	vpBackendChunk = []byte{9, 8, 7}
+	mk := func(method string) *http.Request {
+		r := &http.Request{Method: method, Header: http.Header{"Rdg-Connection-Id": {"conn-A"}}}
+		return identity.AddToRequestCtx(idA, r)
+	}
+	vpPar(func() {
+		vpThread("A")
+		vpNextTransportFor(outA)
+		g.HandleGatewayProtocol(&vpHTTPW{hdr: http.Header{}}, mk(MethodRDGOUT))
+		vpNextTransportFor(inA)
+		g.HandleGatewayProtocol(&vpHTTPW{hdr: http.Header{}}, mk(MethodRDGIN))
 	}, func() {
 		vpThread("B")
 		vpNextTransportFor(trB)
